@@ -197,3 +197,116 @@ Qed.
 (* "*" matches every name, "/" included *)
 Lemma fnm_star_all name : fnm name "*" = true.
 Proof. rewrite fnm_unfold. apply gmatch_star_only. Qed.
+
+(* ------------------------------------------------------------------ "?" and bracket expressions *)
+Lemma gmatch_any p s : gmatch (TAny :: p) s = true <-> exists c b, s = c :: b /\ gmatch p b = true.
+Proof.
+  cbn [gmatch]. destruct s as [|d s]; [split; [discriminate|intros [c [b [H _]]]; discriminate]|].
+  split; [intro H; now exists d, s|intros [c [b [E H]]]; injection E as -> ->; exact H].
+Qed.
+
+Lemma gmatch_set neg items p s :
+  gmatch (TSet neg items :: p) s = true <-> exists c b, s = c :: b /\ xorb neg (existsb (item_matches c) items) = true /\ gmatch p b = true.
+Proof.
+  cbn [gmatch]. destruct s as [|d s]; [split; [discriminate|intros [c [b [H _]]]; discriminate]|].
+  rewrite andb_true_iff. split; [intros [H1 H2]; now exists d, s|intros [c [b [E [H1 H2]]]]; injection E as -> ->; now split].
+Qed.
+
+(* a range written backwards matches nothing (fnmatch.translate removes it) *)
+Lemma reversed_range_empty lo hi c : nat_of_ascii hi < nat_of_ascii lo -> item_matches c (IRange lo hi) = false.
+Proof.
+  intro H. cbn [item_matches]. destruct (nat_of_ascii lo <=? nat_of_ascii c) eqn:E1; [|reflexivity].
+  apply Nat.leb_le in E1. cbn [andb]. apply Nat.leb_gt. lia.
+Qed.
+
+(* the parser finds the "]" that closes a bracket expression ... *)
+Lemma parse_in_bracket body : forall acc rest,
+  ~ In c_rbr body -> closable (rev body ++ acc) = true ->
+  parse_st (Some acc) (body ++ c_rbr :: rest) = mk_set (rev acc ++ body) :: parse_st None rest.
+Proof.
+  induction body as [|c b IH]; intros acc rest Hn Hc.
+  - cbn [app rev] in *. cbn [parse_st]. rewrite aeqb_refl, Hc. cbn [andb]. now rewrite app_nil_r.
+  - cbn [app parse_st]. assert (E : aeqb c c_rbr = false).
+    { apply aeqb_neq. intros ->. apply Hn. now left. }
+    rewrite E. cbn [andb]. rewrite IH.
+    + cbn [rev]. now rewrite <- app_assoc.
+    + intro H. apply Hn. now right.
+    + cbn [rev] in Hc. now rewrite <- app_assoc in Hc.
+Qed.
+
+Lemma parse_bracket body rest :
+  ~ In c_rbr body -> closable (rev body) = true ->
+  parse_st None (c_lbr :: body ++ c_rbr :: rest) = mk_set body :: parse_st None rest.
+Proof.
+  intros Hn Hc. change (parse_st None (c_lbr :: body ++ c_rbr :: rest)) with (parse_st (Some []) (body ++ c_rbr :: rest)).
+  rewrite parse_in_bracket; [reflexivity|exact Hn|now rewrite app_nil_r].
+Qed.
+
+(* ... and a "[" that is never closed is an ordinary character *)
+Lemma parse_unclosed_acc s : forall acc, ~ In c_rbr s -> parse_st (Some acc) s = TLit c_lbr :: map tok1 (rev acc ++ s).
+Proof.
+  induction s as [|c s IH]; intros acc Hn.
+  - cbn [parse_st]. now rewrite app_nil_r.
+  - cbn [parse_st]. assert (E : aeqb c c_rbr = false).
+    { apply aeqb_neq. intros ->. apply Hn. now left. }
+    rewrite E. cbn [andb]. rewrite IH by (intro H; apply Hn; now right). cbn [rev]. now rewrite <- app_assoc.
+Qed.
+
+Lemma parse_unclosed s : ~ In c_rbr s -> parse_st None (c_lbr :: s) = TLit c_lbr :: map tok1 s.
+Proof. intro H. change (parse_st None (c_lbr :: s)) with (parse_st (Some []) s). now rewrite parse_unclosed_acc. Qed.
+
+(* the documented forms of the pattern table: pre ? post  and  pre [chars] post *)
+Theorem fnm_question name pre post :
+  plain (la pre) -> plain (la post) ->
+  fnm name (pre ++ "?" ++ post) = true <-> exists c, la name = la pre ++ c :: la post.
+Proof.
+  intros Hp Hq. rewrite fnm_unfold, !la_app. change (la "?") with [c_qm].
+  rewrite parse_plain by exact Hp. cbn [app]. change (parse_st None (c_qm :: la post)) with (TAny :: parse_st None (la post)).
+  rewrite parse_plain_all by exact Hq. rewrite gmatch_lits. split.
+  - intros [b [E M]]. apply gmatch_any in M. destruct M as [c [b' [-> M]]].
+    rewrite <- (app_nil_r (map TLit (la post))) in M. apply gmatch_lits in M. destruct M as [b'' [-> M]].
+    apply gmatch_nil in M. subst b''. rewrite app_nil_r in E. now exists c.
+  - intros [c E]. exists (c :: la post). split; [exact E|]. apply gmatch_any. exists c, (la post). split; [reflexivity|].
+    rewrite <- (app_nil_r (map TLit (la post))). apply gmatch_lits. exists []. split; [now rewrite app_nil_r|reflexivity].
+Qed.
+
+(* single characters only: no "-" (ranges), no "]", not starting with "!" *)
+Definition simple_set (chars : list ascii) : Prop :=
+  chars <> [] /\ ~ In c_rbr chars /\ ~ In c_dash chars /\ (forall c r, chars = c :: r -> c <> c_bang).
+
+Lemma items_of_singles chars : ~ In c_dash chars -> items_of chars = map ISingle chars.
+Proof.
+  induction chars as [|c tl IH]; [reflexivity|]. intro H.
+  assert (Htl : ~ In c_dash tl) by (intro X; apply H; now right).
+  cbn [items_of map]. destruct tl as [|d [|e r]]; try (now rewrite <- IH).
+  assert (E : aeqb d c_dash = false) by (apply aeqb_neq; intros ->; apply H; right; now left).
+  rewrite E. now rewrite <- IH.
+Qed.
+
+Lemma existsb_singles c chars : existsb (item_matches c) (map ISingle chars) = amem c chars.
+Proof. induction chars as [|d r IH]; [reflexivity|]. cbn. now rewrite IH. Qed.
+
+Theorem fnm_charset name pre chars post :
+  plain (la pre) -> plain (la post) -> simple_set chars ->
+  fnm name (pre ++ "[" ++ sa chars ++ "]" ++ post) = true <-> exists c, In c chars /\ la name = la pre ++ c :: la post.
+Proof.
+  intros Hp Hq [Hne [Hr [Hd Hb]]]. rewrite fnm_unfold, !la_app, la_sa. change (la "[") with [c_lbr]. change (la "]") with [c_rbr].
+  rewrite parse_plain by exact Hp. cbn [app].
+  assert (Hc : closable (rev chars) = true).
+  { destruct chars as [|c r]; [congruence|]. destruct r as [|d r].
+    - cbn. apply negb_true_iff, aeqb_neq. now apply (Hb c []).
+    - cbn [rev]. destruct (rev r) as [|x [|y l]]; reflexivity. }
+  rewrite parse_bracket by assumption. rewrite parse_plain_all by exact Hq.
+  assert (Em : mk_set chars = TSet false (map ISingle chars)).
+  { destruct chars as [|c r]; [congruence|]. cbn [mk_set].
+    assert (E : aeqb c c_bang = false) by (apply aeqb_neq; now apply (Hb c r)).
+    rewrite E. now rewrite items_of_singles. }
+  rewrite Em, gmatch_lits. split.
+  - intros [b [E M]]. apply gmatch_set in M. destruct M as [c [b' [-> [Hx M]]]].
+    rewrite <- (app_nil_r (map TLit (la post))) in M. apply gmatch_lits in M. destruct M as [b'' [-> M]].
+    apply gmatch_nil in M. subst b''. rewrite app_nil_r in E. rewrite xorb_false_l, existsb_singles in Hx.
+    exists c. split; [now apply amem_In|exact E].
+  - intros [c [Hin E]]. exists (c :: la post). split; [exact E|]. apply gmatch_set. exists c, (la post). repeat split.
+    + rewrite xorb_false_l, existsb_singles. now apply amem_In.
+    + rewrite <- (app_nil_r (map TLit (la post))). apply gmatch_lits. exists []. split; [now rewrite app_nil_r|reflexivity].
+Qed.
